@@ -405,12 +405,12 @@ def gen_node_op(rng, kind, n, x=None):
     if x < 0.6:
         return ["clear"]
     ns = rng.sample(range(n), rng.randint(1, n)) if rng.random() < 0.9 else []
-    if kind == "u" and rng.random() < 0.4:
+    if kind == "u" and rng.random() < 0.5:
         # the metadata table of Hypergraph.add_nodes: an entry per node, now and then one is missing (rejected),
         # now and then one too many
         tb = [[r, gen_md(rng, 0.3) or []] for r in ns]
         y = rng.random()
-        if tb and y < 0.2:
+        if tb and y < 0.3:
             tb.pop(rng.randrange(len(tb)))
         elif y < 0.35:
             tb.append([rng.randrange(n), gen_md(rng, 0) or []])
@@ -582,6 +582,14 @@ def gen_source_extended(rng):
     # every such source holds a node removal and a node batch for sure
     extra += [["rmnode", rng.randrange(n), False], ["rmnode", rng.randrange(n), True],
               gen_node_op(rng, case["kind"], n, rng.choice([0.7, 0.7, 0.55]))]
+    if case["kind"] == "u":
+        # Hypergraph.add_nodes with the metadata table over ALL labels (some absent after the removals): once complete, once
+        # with a later entry missing - the whole batch must be rejected, none of the earlier nodes added
+        ns = rng.sample(range(n), n)
+        tb = [[r, gen_md(rng, 0) or [[0, rv(rng)]]] for r in ns]
+        miss = rng.randrange(1, n) if n > 1 else 0
+        extra.append(["addnodes", ns, tb] if rng.random() < 0.4 else
+                     ["addnodes", ns, [t for i, t in enumerate(tb) if i != miss]])
     for op in extra:
         if op[0] == "clear" and rng.random() < 0.6:
             continue
